@@ -6,43 +6,68 @@
 (* parks the pointer on list.last.  LinkedHashSet and LinkedHashMap iterate    *)
 (* their order list with it.  Checked against the cursor of AbsCursor (C08);   *)
 (* a nil dereference is an explicit `ipanic` outcome (C17).                    *)
+(* KEPT ITERATORS: `Mutate` lets any list operation happen while the iterator   *)
+(* exists; the iterator is then `stale` until an absolute jump (C08 says        *)
+(* nothing about it meanwhile) but no move and no Value() after a successful    *)
+(* move may dereference nil (C17: any interleaving).  Repaired = FALSE is the   *)
+(* iterator as it was before fix 77df476 (finding F10): TLC then answers with   *)
+(* the history  walk to the end, Add, Add, Next  (spec/MCDLLIter_f10.cfg, which *)
+(* bin/selftest requires TLC to reject); Repaired = TRUE is the code as it is.  *)
 EXTENDS DLL, AbsCursor
-VARIABLES idx, el, pos, ret, opened, ipanic
-ivars == <<L, last, idx, el, pos, ret, opened, ipanic>>
+CONSTANT Repaired
+VARIABLES idx, el, pos, ret, opened, ipanic, stale
+ivars == <<L, last, idx, el, pos, ret, opened, ipanic, stale>>
+\* a cell that left the list keeps its links in Go; the model frees it (links -1): following them yields a dangling, non-nil pointer
+Dangling == -1
+Nxt(x) == IF x = Dangling THEN Dangling ELSE L.n[x].next
+Prv(x) == IF x = Dangling THEN Dangling ELSE L.n[x].prev
 Seq0 == LET vs == Values(L) IN [i \in DOMAIN vs |-> <<i - 1, vs[i]>>]
 NextS ==   \* returns <<index, element, result, panicked>>
   LET i1 == IF idx < L.size THEN idx + 1 ELSE idx IN
   IF ~WithinRange(L, i1) THEN <<i1, Nil, FALSE, FALSE>>
-  ELSE IF i1 # 0 THEN (IF el = Nil THEN <<i1, Nil, FALSE, TRUE>> ELSE <<i1, L.n[el].next, TRUE, FALSE>>)   \* element.next
-  ELSE <<i1, L.first, TRUE, FALSE>>
+  ELSE IF i1 = 0 THEN <<i1, L.first, TRUE, FALSE>>
+  ELSE IF Repaired THEN LET e1 == IF el = Nil THEN Nil ELSE Nxt(el)                                       \* element.next, if there is an element
+                        IN <<i1, IF e1 = Nil THEN WalkFwd(L, L.first, i1) ELSE e1, TRUE, FALSE>>           \* reanchor()
+  ELSE (IF el = Nil THEN <<i1, Nil, FALSE, TRUE>> ELSE <<i1, Nxt(el), TRUE, FALSE>>)                      \* element.next
 PrevS ==
   LET i1 == IF idx >= 0 THEN idx - 1 ELSE idx IN
   IF ~WithinRange(L, i1) THEN <<i1, Nil, FALSE, FALSE>>
   ELSE IF i1 = L.size - 1 THEN <<i1, L.last, TRUE, FALSE>>
-  ELSE (IF el = Nil THEN <<i1, Nil, FALSE, TRUE>> ELSE <<i1, L.n[el].prev, TRUE, FALSE>>)                    \* element.prev
+  ELSE IF Repaired THEN LET e1 == IF el = Nil THEN Nil ELSE Prv(el)
+                        IN <<i1, IF e1 = Nil THEN WalkFwd(L, L.first, i1) ELSE e1, TRUE, FALSE>>
+  ELSE (IF el = Nil THEN <<i1, Nil, FALSE, TRUE>> ELSE <<i1, Prv(el), TRUE, FALSE>>)                      \* element.prev
 Pr == [name |-> "true", m |-> 0, r |-> 0, i |-> 0]
-IInit == Init /\ idx = -1 /\ el = Nil /\ pos = -1 /\ ret = FALSE /\ opened = FALSE /\ ipanic = FALSE
-Build == ~opened /\ Next /\ UNCHANGED <<idx, el, pos, ret, opened, ipanic>>
-Open  == ~opened /\ ~L.panic /\ opened' = TRUE /\ UNCHANGED <<L, last, idx, el, pos, ret, ipanic>>
-Do(op, r) == /\ opened /\ ~ipanic
+IInit == Init /\ idx = -1 /\ el = Nil /\ pos = -1 /\ ret = FALSE /\ opened = FALSE /\ ipanic = FALSE /\ stale = FALSE
+Build == ~opened /\ Next /\ UNCHANGED <<idx, el, pos, ret, opened, ipanic, stale>>
+Open  == ~opened /\ ~L.panic /\ opened' = TRUE /\ UNCHANGED <<L, last, idx, el, pos, ret, ipanic, stale>>
+\* the list is modified while the iterator is kept (a cell that leaves the list leaves the iterator with a dangling pointer)
+Mutate == /\ opened /\ ~ipanic /\ ~L.panic /\ Next /\ stale' = TRUE
+          /\ el' = (IF el # Nil /\ el # Dangling /\ L'.n[el].prev = -1 THEN Dangling ELSE el)
+          /\ ret' = FALSE                                  \* (a value is read only after a successful move)
+          /\ UNCHANGED <<idx, pos, opened, ipanic>>
+Absolute(op) == op \in {"Begin", "End", "First", "Last"}
+Do(op, r) == /\ opened /\ ~ipanic /\ ~L.panic
              /\ idx' = r[1] /\ el' = r[2] /\ ret' = r[3] /\ ipanic' = r[4]
-             /\ pos' = Move(Seq0, pos, op, Pr) /\ UNCHANGED <<L, last, opened>>
+             /\ stale' = (stale /\ ~Absolute(op))
+             /\ pos' = (IF stale' THEN pos ELSE Move(Seq0, pos, op, Pr)) /\ UNCHANGED <<L, last, opened>>
 \* First = Begin; Next   and   Last = End; Prev
 FirstS == LET i1 == IF -1 < L.size THEN 0 ELSE -1 IN IF ~WithinRange(L, i1) THEN <<i1, Nil, FALSE, FALSE>> ELSE <<0, L.first, TRUE, FALSE>>
 LastS  == LET i1 == L.size - 1 IN IF ~WithinRange(L, i1) THEN <<i1, Nil, FALSE, FALSE>> ELSE <<i1, L.last, TRUE, FALSE>>
-INext == \/ Build \/ Open
+INext == \/ Build \/ Open \/ Mutate
          \/ Do("Next", NextS) \/ Do("Prev", PrevS)
          \/ Do("Begin", <<-1, Nil, FALSE, FALSE>>) \/ Do("End", <<L.size, L.last, FALSE, FALSE>>)
          \/ Do("First", FirstS) \/ Do("Last", LastS)
 ISpec == IInit /\ [][INext]_ivars
-CursorInv == (opened /\ ~ipanic) =>
+CursorInv == (opened /\ ~ipanic /\ ~stale /\ ~L.panic) =>
    /\ idx = pos                                                           \* Index()
    /\ ret = Inside(Seq0, pos)
    /\ (Inside(Seq0, pos) => el # Nil /\ L.n[el].value = Seq0[pos + 1][2])  \* Value()
 NoIterPanic == ~ipanic
+\* Value() after a move that returned true: there is an element (stale or not)
+NoValuePanic == (opened /\ ret) => el # Nil
 RECURSIVE PosOf(_, _, _)
 PosOf(t, x, from) == IF from = Nil THEN -2 ELSE IF from = x THEN 0 ELSE
                      LET p == PosOf(t, x, t.n[from].next) IN IF p = -2 THEN -2 ELSE p + 1
 \* the element pointer is identified by the position of its cell in the chain (cell ids are allocation noise)
-IView == <<Values(L), L.panic, idx, IF el = Nil THEN -1 ELSE PosOf(L, el, L.first), pos, opened, ipanic>>
+IView == <<Values(L), L.panic, idx, IF el = Nil THEN -1 ELSE IF el = Dangling THEN -3 ELSE PosOf(L, el, L.first), pos, opened, ipanic, stale, ret>>
 =============================================================================
